@@ -52,6 +52,7 @@ type cnDriver struct {
 	pendRts    map[*cnTxSpec]string // proposed runtime lists of not yet executed registrations
 	rtOwner    map[string]string    // registered runtimes -> owning entity
 	epoch      int64
+	vrf        vrfView   // VRF backend: epoch, its first height, alpha, proofs seen (end of the previous block)
 	lastRh     []*rhView // round state of the runtimes at the end of the previous block
 	noRounds   bool      // do not submit executor commitments
 	lastPropH  int64     // height of the last successful proposal
@@ -360,7 +361,13 @@ func (d *cnDriver) step() error {
 	}
 	// keep the documented precondition of C10: nodes re-register before they expire (one node may lapse now and then)
 	epochNow := (h - 1) / n.cfg.EpochInterval
-	if (h-1)%n.cfg.EpochInterval == n.cfg.EpochInterval-2 || n.cfg.EpochInterval < 3 {
+	renew := (h-1)%n.cfg.EpochInterval == n.cfg.EpochInterval-2 || n.cfg.EpochInterval < 3
+	if n.cfg.VRF {
+		// the VRF backend schedules epochs from the state: read epoch, its first height and the proof window from there
+		epochNow, renew = d.vrf.epoch, h-d.vrf.epochHeight == n.cfg.EpochInterval-2
+		metas = append(metas, d.genProofs(h, nonceBump)...)
+	}
+	if renew {
 		for i, v := range n.vals {
 			if i != 1 && d.rng.Intn(12) == 0 {
 				continue // let this node lapse for an epoch
@@ -780,6 +787,7 @@ func (d *cnDriver) observe(b *cnBlock, metas []cnTxMeta) cnBlockResult {
 		ebr := r.mux.EndBlock(cmtabci.RequestEndBlock{Height: b.Height})
 		eb := ebr.ValidatorUpdates
 		res.ValUpd = valUpdStrings(eb)
+		d.vrf = n.vrfViewOf(bgCtx, st2(r))
 		d.lastRh = n.rhViews(bgCtx, st2(r), d.runtimeNames())
 		d.emit(map[string]any{"ev": "rh", "h": b.Height, "rts": d.lastRh, "disc_events": rhDiscrepancyEvents(n, ebr.Events)})
 		st, done = r.liveState()
@@ -828,6 +836,8 @@ func consRun(args []string) int {
 	maxPerEntity := fs.Int("maxperentity", 1, "scheduler MaxValidatorsPerEntity")
 	maxGroup := fs.Int("maxgroup", 2, "largest primary committee size requested by runtime registrations")
 	noRounds := fs.Bool("norounds", false, "do not submit executor commitments")
+	vrfMode := fs.Bool("vrf", false, "VRF beacon backend: nodes submit VRF proofs, elections use them")
+	vrfThr := fs.Uint64("vrfthreshold", 2, "VRF backend: proofs needed for a high-quality alpha")
 	tied := fs.Bool("tiedstake", false, "all validator entities start with the same escrow (ties at the validator-count cut-off)")
 	extraNodes := fs.Int("extranodes", 0, "additional validator nodes run by entity 0 (per-entity limit stays 1)")
 	sanity := fs.Bool("sanity", false, "register the in-tree supplementary sanity checker in the observer (it halts the chain on a failure; TLC is the oracle, so it is off by default)")
@@ -853,7 +863,7 @@ func consRun(args []string) int {
 	}
 	defer w.Close()
 	cfg := cnCfg{Validators: *vals, Users: *users, EpochInterval: *interval, Seed: *seed, ChainID: fmt.Sprintf("verif-chain-%d", *seed),
-		MaxValidators: *maxVals, MaxPerEntity: *maxPerEntity, ExtraNodes: *extraNodes, TiedStake: *tied}
+		MaxValidators: *maxVals, MaxPerEntity: *maxPerEntity, ExtraNodes: *extraNodes, TiedStake: *tied, VRF: *vrfMode, VRFThreshold: *vrfThr}
 	net, err := newNet(cfg, *scratch)
 	if err != nil {
 		fmt.Fprintln(os.Stderr, "net:", err)
